@@ -639,6 +639,12 @@ def f6_cells():
     inner = FnDef("inner", [("x", "i32"), ("y", "i32")], oi, Block([Let("v", "i32", Try(Field(Call("wrap", [mk(Var("x", "i32")), Var("y", "i32")], wty), "o", oi), "i32"))], Ctor(oi, "Some", [Bin("+", Var("v", "i32"), one, "i32")]), oi))
     out.append(P("f6_try_on_field_of_temporary_record", "F6", Program([wrap, inner, fn_main([("a", "i32"), ("b", "i32")], "i32", [],
                  Match(Call("inner", [a, b], oi), [("Some", ["v"], None, Var("v", "i32")), ("None", [], None, Lit("i32", -1))], "i32"))], records={"Wrapped": [("t", T), ("o", oi)]}), {"ledger", "value", "trace"}))
+    # a match guard that itself leaves the function: the bindings of that arm are live at that point
+    ot_ = ("opt", T)
+    out.append(P("f6_match_guard_returns", "F6", Program([fn_main([("a", "i32"), ("b", "i32")], "i32", [
+        Let("o", ot_, If(Bin(">", a, zero, "bool"), Block([], Ctor(ot_, "Some", [mk(a)]), ot_), Block([], Ctor(ot_, "None", []), ot_), ot_))],
+        Match(Var("o", ot_), [("Some", ["t"], Block([ExprStmt(If(Bin(">", a, b, "bool"), Block([ExprStmt(Ret(zero))], None, "unit"), None, "unit"))], Lit("bool", True), "bool"), peek(t)),
+                              ("Some", ["t"], None, one), ("None", [], None, Lit("i32", 2))], "i32"))]), {"ledger", "value", "trace"}))
     out.append(P("f6_record_later_field_returns", "F6", Program([fn_main([("a", "i32"), ("b", "i32")], "i32", [
         Let("h", rty, RecLit(rty, [("t", mk(b)), ("n", Block([ExprStmt(If(Bin(">", a, b, "bool"), Block([ExprStmt(Ret(zero))], None, "unit"), None, "unit"))], a, "i32"))]))],
         Bin("+", Field(h, "n", "i32"), peek(Field(h, "t", T)), "i32"))], records={"Holder": [("n", "i32"), ("t", T)]}), {"ledger", "value", "trace"}))
